@@ -12,35 +12,52 @@ GEN_DEPENDS = ["Tables"]
 RULE = ("tree lists (1-3 trees, 1-8 leaves quick / up to 30 thorough; polytomies, unary nodes, anonymous leaves, internal labels or "
         "internal taxa, lengths None/0/int/dyadic/scientific/negative, rooting True/False/None, weights) over namespaces whose labels are "
         "drawn from printable ASCII + tab + non-ASCII letters (biased to every tokenizer/protect table character, underscores, "
-        "spaces, quotes, digit-only labels), written and re-read through newick/nexus/nexml with consistent writer/reader option pairs; "
+        "spaces, quotes, digit-only labels), written and re-read through newick/nexus/nexml with consistent writer/reader option pairs, as Tree or "
+        "TreeList, into a fresh namespace or the source namespace (for NEXUS the whole document and for NeXML the element structure also go through the "
+        "model writer and the model reader; input_distribution counts every model op); about 40 % of the NEXUS / NeXML cases (20 % Newick) "
+        "use a namespace whose MEMBER order differs from the accession order (sort(), sort(reverse=True), reverse(), remove_taxon + add_taxon "
+        "applied after the trees were built; with taxa on no node), with TRANSLATE on / off (default tokens = accession index + 1), with and "
+        "without TAXA blocks (suppress_taxa_blocks), and namespaces written on their own (TAXA block / otus only, read back as a DataSet) - the "
+        "namespace clause is judged on the member order at the time of writing; a fixed grid of such cases runs first for every seed; "
         "plus label-level (escape/next), token-stream and malformed-statement streams for the model correspondence; thorough adds "
         "every label-domain character in first/middle/last position, all pairs of special characters and all shapes <= 4 leaves with "
         "every anonymous-leaf pattern. Non-trivial = some label contains a character outside [A-Za-z0-9] or the options are non-default "
         "or a leaf is anonymous or the list has more than one tree")
 MODELLED_NOT_VERIFIED = [
     "C02: Newick side (escape_nexus_token, NexusTokenizer, NewickWriter, NewickReader statement parser, NexusTaxonSymbolMapper lookup order, "
-    "rooting/weight comments) is a hand-written Lean model tied to the code by per-case comparison (ops escape, tokens, write, parse); the NEXUS "
-    "TREES block writer and reader (_write_trees_block/_set_and_write_translate_block, _parse_trees_block/_parse_tree_statement/"
-    "_parse_translate_statement) likewise (ops nexus, nexus-text, taxlabels)",
-    "C02: the NEXUS block grammar (TAXA/TREES/TRANSLATE statements) and NeXML (xml.etree parsing, attribute quoting, id maps) are not "
-    "modelled: they are exercised by the real round-trip oracle only",
-    "C02: float <-> text is Python's repr/float (lengths are opaque strings in the model); case folding is a parameter of the model "
-    "(theorems hold for every folding); the driver is handed str.lower() of the characters that occur (one-character images only: the "
-    "generators never emit characters such as U+0130 or a final sigma); metadata comments/annotations are outside the statement",
+    "rooting/weight comments) is a hand-written Lean model tied to the code by per-case comparison (ops escape, tokens, write, parse, rt); the NEXUS "
+    "document writer and reader (_write: #NEXUS, _write_taxa_block, _write_trees_block, _set_and_write_translate_block; _parse_nexus_stream, "
+    "_parse_taxa_block, _parse_dimensions_statement, _parse_taxlabels_statement, _parse_trees_block, _parse_tree_statement, "
+    "_parse_translate_statement) likewise (ops nexus-doc, nexus-doc-text, nexus, nexus-text, taxlabels); texts are compared as token streams",
+    "C02: NEXUS documents with TITLE / LINK lines (several namespaces in one file), blocks other than TAXA / TREES, and text after the first "
+    "TREES block are outside the model (the model reader refuses them; the harness sends one-tree-list documents only)",
+    "C02: NeXML is modelled on the ELEMENT STRUCTURE only (ops nexml-write, nexml-read, nexml-rt: otus / otu / tree / node / edge / rootedge with their "
+    "id, label, otu, root, source, target, length attributes, the writer's id counter, the reader's parent assignment in edge order, seed detection and "
+    "rootedge); the XML text, attribute quoting (_protect_attr / quoteattr) and xml.etree parsing are trusted: the harness reads the library's text with "
+    "xml.etree directly and hands the element structure over; documents a writer does not produce (duplicate ids, re-parented nodes, several "
+    "parentless nodes) are refused by the model; nxRead(nxWrite(trees)) = trees is compared on every case, not proved",
+    "C02: float <-> text is Python's repr/float (lengths are opaque strings in the model); NTAX is Lean's Nat.repr against Python's str(int) (token "
+    "comparison); case folding is a parameter of the model (theorems hold for every folding); the driver is handed str.lower() of the characters that "
+    "occur (one-character images only: the generators never emit characters such as U+0130 or a final sigma); keyword matching upper-cases ASCII only; "
+    "metadata comments/annotations are outside the statement",
 ]
 EXPLANATION = ("Theorems (Props/C02.lean, all about the definitions drv_c02 runs): special_protected, tokenizer_tables (`decide` over the regenerated "
-               "tables); tokenizer_fuel_suffices, reader_fuel_suffices (every loop of the reader model has enough fuel on every input); "
+               "tables); tokenizer_fuel_suffices, reader_fuel_suffices (every loop of the Newick reader model has enough fuel on every input); "
                "token_roundtrip(_kind), token_roundtrip_any (both protect classes; captured / whitespace / end-of-text follower); statement_tokens; "
-               "newick_tokens_roundtrip (every tree, anonymous leaves included); newick_roundtrip, newick_roundtrip_tree(_weighted); "
+               "newick_tokens_roundtrip (every tree, anonymous leaves included); newick_roundtrip, newick_roundtrip_tree(_weighted)(_undefined); "
                "newick_list_roundtrip(_trees): several statements per text read into a pre-filled namespace; rooting_roundtrip, weight_absent, "
-               "weight_roundtrip (incl. fractions); nexus_statements_roundtrip_partial and nexus_translate_roundtrip_partial + resolve_key: the TREE "
-               "statements of a NEXUS block under the NEXUS symbol mapper (label before number, TRANSLATE token before label) - partial because "
-               "the block grammar around the statements is not modelled; nexus_translate_roundtrip: end to end on the original trees (labels -> "
-               "tokens by the writer's table, tokens -> labels by the reader's); taxlabels_tokens: the TAXLABELS list the writer emits tokenizes "
-               "back to the namespace labels in order; newick_roundtrip_tree_undefined; nexus_trees_roundtrip: the TREES block text the model writer "
-               "produces (BEGIN TREES; TREE name = statement ... END;, no TRANSLATE) read by the model's block reader gives every tree back under "
-               "its name. The block reader/writer with a TRANSLATE statement is modelled and compared (ops nexus, nexus-text) but not proved; the TAXA "
-               "block keywords and NeXML have no model and no theorem - real round-trip oracle only; float <-> text is trusted.")
+               "weight_roundtrip (incl. fractions); nexus_statements_roundtrip_partial, nexus_translate_roundtrip_partial, resolve_key, "
+               "nexus_translate_roundtrip: the TREE statements of a NEXUS block under the NEXUS symbol mapper (label before number, TRANSLATE token "
+               "before label; the _partial ones take the statements cut out of the block); taxlabels_tokens; nexus_trees_roundtrip and "
+               "nexus_trees_translate_roundtrip: the TREES block TEXT of the model writer (BEGIN TREES; [Translate token label, ... ;] TREE name = "
+               "statement ... END;) read by the model's block reader gives every ORIGINAL tree back under its name, and the table as written; "
+               "nexus_document_roundtrip and nexus_document_translate_roundtrip: the WHOLE document (#NEXUS, BEGIN TAXA; DIMENSIONS NTAX=n; TAXLABELS ...; "
+               "END;, TREES block) written by the model writer and read by the model document reader gives the namespace back - same labels, same "
+               "order (the MEMBER order of the source namespace, which is what TAXLABELS and the TRANSLATE table list), built from TAXLABELS or handed "
+               "in by the caller - and the trees; default_translate_table: the default table (token = accession index + 1, member order) has plain-word "
+               "tokens and lists the namespace in member order; nexml_write_shape_partial: the NeXML writer model's id "
+               "bookkeeping (one node and one edge element per node, counter arithmetic, seed first with root=\"true\" iff rooted, rootedge first) - "
+               "partial: the NeXML reader-after-writer identity is compared on every case (op nexml-rt) but not proved; float <-> text is trusted.")
 
 SCHEMAS = ("newick", "nexus", "nexml")
 NONASCII = u"éÉßñλЖж"        # includes the case pairs e-acute / E-acute and ZHE / zhe (each has a one-character str.lower())
@@ -255,14 +272,76 @@ def gen_case(rng, schema=None, max_leaves=8, force=None):
                 ropts["rooting"] = "force-rooted" if True in rts else "force-unrooted"
         if schema == "nexus" and rng.random() < 0.35:
             wopts["translate_tree_taxa"] = True
+        if schema == "nexus" and rng.random() < 0.08:
+            wopts["suppress_taxa_blocks"] = True
     case = {"op": "roundtrip", "schema": schema, "labels": labels, "trees": trees, "wopts": wopts, "ropts": ropts,
             "via": "tree" if (ntrees == 1 and rng.random() < 0.4) else "treelist",
             "into": "source" if rng.random() < 0.2 else "fresh"}
+    # without a TAXA block the taxon numbers of the reader refer to the namespace under construction: digit-only labels cannot
+    # be carried into a FRESH namespace by that layout (boundary of the format, see report); the matching reader option is the
+    # source namespace handed in
+    if wopts.get("suppress_taxa_blocks") and any(l.isdigit() for l in labels):
+        case["into"] = "source"
+    # namespaces whose member order is not the accession order (sorted / reversed / a member removed and added again)
+    if labels and rng.random() < (0.2 if schema == "newick" else 0.4):
+        case["ns_ops"] = gen_ns_ops(rng, labels)
     case.update({k: v for k, v in force.items() if k != "labels"})
     return case
 
 
 # ------------------------------------------------------------------ building and observing real trees
+NS_OPS = ("sort", "rsort", "reverse", "readd")
+
+
+def gen_ns_ops(rng, labels):
+    """operations applied to the TaxonNamespace AFTER the trees are built, so that its member (iteration) order differs from
+    the accession order: sort(), sort(reverse=True), reverse(), remove_taxon + add_taxon of one member (leaves a hole in the
+    accession indices and moves the member to the end)"""
+    ops = []
+    for _ in range(rng.choice([1, 1, 2, 3])):
+        k = rng.choice(NS_OPS)
+        if k == "readd":
+            if labels:
+                ops.append(["readd", rng.choice(labels)])
+        else:
+            ops.append([k])
+    return ops
+
+
+def ns_sim(case):
+    """the namespace the writer is handed, computed from the case alone: (labels in member order, label -> accession index)"""
+    order = list(case["labels"])
+    acc = {l: i for i, l in enumerate(order)}
+    count = len(order)
+    for op in case.get("ns_ops") or ():
+        if op[0] == "sort":
+            order.sort()
+        elif op[0] == "rsort":
+            order.sort(reverse=True)
+        elif op[0] == "reverse":
+            order.reverse()
+        elif op[0] == "readd" and op[1] in acc:
+            order.remove(op[1])
+            order.append(op[1])
+            acc[op[1]] = count
+            count += 1
+    return order, acc
+
+
+def apply_ns_ops(tns, case):
+    by_label = {t.label: t for t in tns}
+    for op in case.get("ns_ops") or ():
+        if op[0] == "sort":
+            tns.sort()
+        elif op[0] == "rsort":
+            tns.sort(reverse=True)
+        elif op[0] == "reverse":
+            tns.reverse()
+        elif op[0] == "readd" and op[1] in by_label:
+            tns.remove_taxon(by_label[op[1]])
+            tns.add_taxon(by_label[op[1]])
+
+
 def build_treelist(dendropy, case):
     tns = dendropy.TaxonNamespace(case["labels"])
     by_label = {t.label: t for t in tns}
@@ -282,6 +361,7 @@ def build_treelist(dendropy, case):
         tree.weight = tu.Fraction(t["weight"]) if isinstance(t.get("weight"), str) else t.get("weight")
         tree.label = t.get("name")
         tl.append(tree)
+    apply_ns_ops(tns, case)
     return tl
 
 
@@ -312,10 +392,13 @@ def compare_node(a, b, schema, path, is_root, out):
         compare_node(x, y, schema, path + "." + str(i), False, out)
 
 
-def oracle(case, tl2):
-    """the statement evaluated on the re-read tree list; returns [(kind, what)]"""
+def oracle(case, tl2, order=None):
+    """the statement evaluated on the re-read tree list; returns [(kind, what)].  `order`: the labels of the source namespace
+    in ITS member order at the time of writing (the namespace clause is about that order, not the accession order)"""
     out = []
     schema = case["schema"]
+    if order is None:
+        order = ns_sim(case)[0]
     if len(tl2) != len(case["trees"]):
         return [("tree-count", "%d trees written, %d read back" % (len(case["trees"]), len(tl2)))]
     for k, (t, t2) in enumerate(zip(case["trees"], tl2)):
@@ -333,16 +416,20 @@ def oracle(case, tl2):
             out.append(("taxon-namespace", "tree %d: a node's Taxon object is not a member of the re-read namespace" % k))
     got = [x.label for x in tl2.taxon_namespace]
     if case.get("into") == "source":
-        if got != case["labels"]:
-            out.append(("namespace", "read into the source namespace %r, which then lists %r" % (case["labels"], got)))
-    elif schema == "newick":
+        if got != order:
+            out.append(("namespace", "read into the source namespace %r, which then lists %r" % (order, got)))
+    elif schema == "newick" or (schema == "nexus" and case["wopts"].get("suppress_taxa_blocks")):
+        # no TAXA block: the text carries the labels on the trees only (plus, with TRANSLATE, the table)
         used = set()
         for t in case["trees"]:
             used.update(nd[0] for nd in spec_nodes(t["spec"]) if nd[0] is not None)
-        if set(got) != used or len(got) != len(set(got)):
+        if schema == "nexus" and case["wopts"].get("translate_tree_taxa"):
+            if got != order:
+                out.append(("namespace", "no TAXA block, TRANSLATE table lists %r, namespace read back %r" % (order, got)))
+        elif set(got) != used or len(got) != len(set(got)):
             out.append(("namespace", "taxon labels on the trees %r, namespace read back %r" % (sorted(used), got)))
-    elif got != case["labels"]:
-        out.append(("namespace", "namespace labels %r read back as %r" % (case["labels"], got)))
+    elif got != order:
+        out.append(("namespace", "namespace labels (member order at writing) %r read back as %r" % (order, got)))
     return out
 
 
@@ -465,16 +552,103 @@ def canon_impl(tl, stw):
             [[t.is_rooted, (None if t.weight is None else float(t.weight).hex()) if stw else None, go(t.seed_node)] for t in tl]]
 
 
+
+# ------------------------------------------------------------------ NeXML: the abstract document (element structure)
+NEXML_NS = "{http://www.nexml.org/2009}"
+
+
+def nexml_doc_of_text(text):
+    """the element structure of a NeXML text, read with xml.etree directly (not through dendropy.dataio.xmlprocessing):
+    [otus_id, [(otu_id, label)], trees_id, [(tree_id, label, [(id, label, otu, root)], [(id, source, target, length)])]];
+    `rootedge` elements are edges without source.  Returns None when the layout is not the one-otus / one-trees document"""
+    from xml.etree import ElementTree as ET
+    root = ET.fromstring(text)      # feed(str): the declared encoding does not apply to text that is already decoded
+    otus = list(root.iter(NEXML_NS + "otus"))
+    trees = list(root.iter(NEXML_NS + "trees"))
+    if len(otus) != 1 or len(trees) != 1:
+        return None
+    o, tb = otus[0], trees[0]
+    if tb.get("otus") != o.get("id"):
+        return None
+    doc = [o.get("id"), [(e.get("id"), e.get("label")) for e in o.findall(NEXML_NS + "otu")], tb.get("id"), []]
+    for t in tb.findall(NEXML_NS + "tree"):
+        nodes = [(n.get("id"), n.get("label"), n.get("otu"), (n.get("root") or "").lower() in ("1", "t", "true"))
+                 for n in t.findall(NEXML_NS + "node")]
+        edges = []
+        for e in t:
+            if e.tag == NEXML_NS + "rootedge":
+                edges.append((e.get("id"), None, e.get("target"), e.get("length")))
+            elif e.tag == NEXML_NS + "edge":
+                if e.get("source") is None:
+                    return None
+                edges.append((e.get("id"), e.get("source"), e.get("target"), e.get("length")))
+        doc[3].append((t.get("id"), t.get("label"), nodes, edges))
+    return doc
+
+
+def nexml_doc_of_model(line):
+    """parse the driver's `nexml-write` answer (same flat layout as `nexml_doc_tokens`)"""
+    w = line.split(" ")
+    pos = [0]
+
+    def take():
+        pos[0] += 1
+        return w[pos[0] - 1]
+
+    def opt(x):
+        return None if x == "-" else x
+    oid = take()
+    otus = [(take(), unhex6(take())) for _ in range(int(take()))]
+    tid = take()
+    trees = []
+    for _ in range(int(take())):
+        t_id, lab = take(), unhex6(take())
+        nodes = [(take(), unhex6(take()), opt(take()), take() == "1") for _ in range(int(take()))]
+        edges = [(take(), opt(take()), take(), unhex6(take())) for _ in range(int(take()))]
+        trees.append((t_id, lab, nodes, edges))
+    assert pos[0] == len(w)
+    return [oid, otus, tid, trees]
+
+
+def nexml_doc_tokens(doc):
+    """flat protocol layout with ids renumbered by first appearance (ids are arbitrary strings in the text: only their
+    identity matters, so a different id scheme in the writer is not a difference)"""
+    num = {}
+
+    def n(x):
+        if x is None:
+            return "-"
+        return str(num.setdefault(x, len(num)))
+    out = [n(doc[0]), str(len(doc[1]))]
+    for i, lab in doc[1]:
+        out += [n(i), hex6(lab)]
+    out += [n(doc[2]), str(len(doc[3]))]
+    for t_id, lab, nodes, edges in doc[3]:
+        out += [n(t_id), hex6(lab), str(len(nodes))]
+        for i, lb, otu, root in nodes:
+            out += [n(i), hex6(lb), n(otu), "1" if root else "0"]
+        out.append(str(len(edges)))
+        for i, src, tgt, ln in edges:
+            out += [n(i), n(src), n(tgt), hex6(ln)]
+    return " ".join(out)
+
+
+def xw_line(case, order):
+    parts = []
+    for t in case["trees"]:
+        parts.append("%s %d %s" % (hex6(t.get("name")), rooted_code(t["rooted"]), enc_spec(t["spec"])))
+    return "%s %d %s" % (",".join(hex6(x) for x in order) or "-", len(parts), " ".join(parts))
+
 # ------------------------------------------------------------------ the round-trip case: implementation, oracle, model
 def case_key(case):
     return [case.get("op"), case.get("schema"), case.get("labels"), case.get("trees"), case.get("wopts"), case.get("ropts"), case.get("text"),
-            case.get("via"), case.get("into")]
+            case.get("via"), case.get("into"), case.get("ns_ops")]
 
 
 def nontrivial(case):
     if case.get("op") != "roundtrip":
         return True
-    if case["wopts"] or case["ropts"] or len(case["trees"]) > 1:
+    if case["wopts"] or case["ropts"] or len(case["trees"]) > 1 or case.get("ns_ops"):
         return True
     for t in case["trees"]:
         for nd in spec_nodes(t["spec"]):
@@ -500,6 +674,15 @@ def run_roundtrip(ctx, dendropy, case, pending):
     except Exception as e:
         ctx.fail("write-error", "writing to %s raised %s: %s" % (schema, type(e).__name__, str(e)[:200]), case)
         return
+    # the source namespace in ITS member order (differs from the accession order after sort / reverse / remove + add)
+    order, acc = ns_sim(case)
+    actual = [t.label for t in tl.taxon_namespace]
+    if actual != order:
+        ctx.count("ns_sim_mismatch")      # TaxonNamespace ordering itself is C10's subject: take what the namespace says
+        order = actual
+        acc = {t.label: tl.taxon_namespace.accession_index(t) for t in tl.taxon_namespace}
+    if case.get("ns_ops"):
+        ctx.count("namespace-order:" + ("reordered" if order != list(case["labels"]) else "same-after-ops"))
     tl2 = None
     try:
         with time_limit(20):
@@ -519,7 +702,7 @@ def run_roundtrip(ctx, dendropy, case, pending):
         ctx.fail("read-error", "re-reading the written %s text raised %s: %s | text: %r" % (
             schema, type(e).__name__, str(e)[:160], text[-300:]), case)
     if tl2 is not None:
-        probs = oracle(case, tl2)
+        probs = oracle(case, tl2, order)
         if not probs and case.get("into") == "source":
             src = {id(x) for x in tl.taxon_namespace}
             if tl2.taxon_namespace is not tl.taxon_namespace or any(
@@ -533,7 +716,7 @@ def run_roundtrip(ctx, dendropy, case, pending):
         for k, t in enumerate(case["trees"]):
             pending.append((write_line(wopts, t), ("write", case, k), None))
         pending.append((None, ("write-join", case, len(case["trees"])), text))
-        ns0 = case["labels"] if case.get("into") == "source" else ()
+        ns0 = order if case.get("into") == "source" else ()
         pending.append((parse_line(ropts, text, ns=ns0), ("parse", case, stw), "ERR" if tl2 is None else canon_impl(tl2, stw)))
         if len(case["trees"]) == 1 and not ns0:
             # the composite the theorem newick_roundtrip speaks about: model write ; model read = what the library re-read
@@ -543,9 +726,16 @@ def run_roundtrip(ctx, dendropy, case, pending):
         stmts = [l.split(" = ", 1)[1] for l in lines if l.lstrip().upper().startswith("TREE ") and " = " in l]
         token_of, tokmap = None, ()
         if wopts.get("translate_tree_taxa"):
-            token_of = {lab: str(i + 1) for i, lab in enumerate(case["labels"])}
-            tokmap = [(token_of[lab], lab) for lab in case["labels"]]
+            # the default table: token = accession index + 1 (not the position), entries in member order
+            token_of = {lab: str(acc[lab] + 1) for lab in order}
+            tokmap = [(token_of[lab], lab) for lab in order]
         pu = 1 if ropts.get("preserve_underscores") else 0
+        no_taxa = bool(wopts.get("suppress_taxa_blocks"))
+        if no_taxa and case.get("into") != "source":
+            # no TAXA block and a fresh namespace: the reader builds the namespace from the statements (and the table); the
+            # block / document models start from a declared namespace, so only the real round trip (oracle) judges this case
+            ctx.count("nexus_no_taxa_block_fresh")
+            return
         if len(stmts) == len(case["trees"]):
             for k, t in enumerate(case["trees"]):
                 pending.append((write_line(wopts, t, token_of), ("write-stmt", case, pu), stmts[k]))
@@ -553,7 +743,7 @@ def run_roundtrip(ctx, dendropy, case, pending):
             expect = "ERR"
             if tl2 is not None:
                 expect = canon_impl(tl2, stw)
-            pending.append((parse_line(ropts, body, ns=case["labels"], tokmap=tokmap, numbers=True), ("parse-nexus", case, stw), expect))
+            pending.append((parse_line(ropts, body, ns=order, tokmap=tokmap, numbers=True), ("parse-nexus", case, stw), expect))
         else:
             ctx.count("nexus_layout_not_recognised")
             ctx.note("NEXUS TREE statements not found where expected: the model comparison of this case was skipped")
@@ -566,8 +756,8 @@ def run_roundtrip(ctx, dendropy, case, pending):
             if tl2 is not None:
                 ci = canon_impl(tl2, stw)
                 expect = [ci[0], [[tl2[k].label] + x for k, x in enumerate(ci[1])]]
-            pending.append(("nexus %s %s %s %s" % (ropts_bits(ropts), case_map(block, *case["labels"]),
-                                                   ",".join(hex6(x) for x in case["labels"]) or "-", hex6(block)),
+            pending.append(("nexus %s %s %s %s" % (ropts_bits(ropts), case_map(block, *order),
+                                                   ",".join(hex6(x) for x in order) or "-", hex6(block)),
                             ("nexus", case, stw), expect))
             parts = []
             for nm, t in zip(names, case["trees"]):
@@ -576,19 +766,32 @@ def run_roundtrip(ctx, dendropy, case, pending):
                                               enc_spec(t["spec"], token_of)))
             pending.append(("nexus-text %s %s %d %s" % (wopts_bits(wopts), ",".join(hex6(x) for p_ in tokmap for x in p_) or "-",
                                                         len(parts), " ".join(parts)), ("nexus-text", case, pu), block))
+            # the WHOLE document (#NEXUS, TAXA block, TREES block): the model's document reader on the library's text (into the
+            # caller's namespace when one was handed in), and the model's document text against the library's (token streams)
+            if not no_taxa:
+                attached = (",".join(hex6(x) for x in order) or "-") if case.get("into") == "source" else "*"
+                pending.append(("nexus-doc %s %s %s %s" % (ropts_bits(ropts), case_map(text, *order), attached, hex6(text)),
+                                ("nexus-doc", case, stw), expect))
+                # the default table is built by the MODEL from the accession indices (member order, token = accession index + 1)
+                pending.append(("nexus-doc-text %s %s %s %d %s" % (wopts_bits(wopts), ",".join(hex6(x) for x in order) or "-",
+                                                                ("@" + ",".join(str(acc[x]) for x in order)) if tokmap else "-",
+                                                                len(parts), " ".join(parts)), ("nexus-doc-text", case, pu), text))
         else:
             ctx.count("nexus_layout_not_recognised")
         # TAXLABELS list: (i) the model's text for it and the library's tokenize alike; (ii) its tokens are the labels, in order
         def find_ci(word, start=0):
             m_ = re.compile(re.escape(word), re.I).search(text, max(start, 0))
             return -1 if m_ is None else m_.start()
-        i0 = find_ci("TAXLABELS")
+        i0 = -1 if no_taxa else find_ci("TAXLABELS")
         i1 = find_ci("\nEND;", i0)
-        if i0 >= 0 and i1 > i0:
+        if no_taxa:
+            pass
+        elif i0 >= 0 and i1 > i0:
             tl_body = text[i0 + len("TAXLABELS"):i1] + "\n"
             pending.append(("taxlabels %d %d %s" % (1 if wopts.get("preserve_spaces") else 0, 1 if wopts.get("unquoted_underscores") else 0,
-                                                    ",".join(hex6(x) for x in case["labels"]) or "-"), ("taxlabels", case, pu), tl_body))
-            pending.append(("tokens %d %s" % (pu, hex6(tl_body)), ("token-texts", case, None), [hex6(x) for x in case["labels"]] + [hex6(";")]))
+                                                    ",".join(hex6(x) for x in order) or "-"), ("taxlabels", case, pu), tl_body))
+            # the TAXLABELS list carries the namespace's MEMBER order
+            pending.append(("tokens %d %s" % (pu, hex6(tl_body)), ("token-texts", case, None), [hex6(x) for x in order] + [hex6(";")]))
         else:
             ctx.count("nexus_layout_not_recognised")
         # TRANSLATE statement: its tokens are `token label , token label , ... ;` for the table the writer was given
@@ -603,6 +806,81 @@ def run_roundtrip(ctx, dendropy, case, pending):
                 pending.append(("tokens %d %s" % (pu, hex6(tr_body)), ("token-texts", case, None), exp + [hex6(";")]))
             else:
                 ctx.count("nexus_layout_not_recognised")
+
+    elif schema == "nexml":
+        # the element structure the library wrote (read with xml.etree directly): (i) the model writer's structure for the same
+        # trees is the same up to the naming of ids; (ii) the model reader on it gives what the library re-read; (iii) the
+        # composite model write ; model read (what the NeXML theorems speak about) gives that too
+        try:
+            doc = nexml_doc_of_text(text)
+        except Exception:
+            doc = None
+        if doc is None:
+            ctx.count("nexml_layout_not_recognised")
+            return
+        labs = [x for t in case["trees"] for nd in spec_nodes(t["spec"]) for x in (nd[0], nd[1]) if x] + list(order)
+        cm = case_map(*labs)
+        expect = "ERR"
+        if tl2 is not None:
+            ci = canon_impl(tl2, False)
+            expect = [ci[0], [[tl2[k].label or ""] + x for k, x in enumerate(ci[1])]]
+        pending.append(("nexml-write " + xw_line(case, order), ("nexml-write", case, None), nexml_doc_tokens(doc)))
+        attached = (",".join(hex6(x) for x in order) or "-") if case.get("into") == "source" else "*"
+        pending.append(("nexml-read %s %s %s" % (cm, attached, nexml_doc_tokens(doc)), ("nexml-read", case, False), expect))
+        if case.get("into") != "source":
+            pending.append(("nexml-rt %s %s" % (cm, xw_line(case, order)), ("nexml-rt", case, False), expect))
+
+
+def run_taxa_only(ctx, dendropy, case, pending):
+    """a TaxonNamespace written on its own (TAXA block only / otus block only) and read back as a data set: same labels, same
+    MEMBER order.  case: {"op": "taxa-only", "schema": nexus|nexml, "labels": [...], "ns_ops": [...], "wopts": {...}}"""
+    schema = case["schema"]
+    ctx.case(case_key(case), True, sample=case, kind="taxa-only-" + schema)
+    order, _ = ns_sim(case)
+    try:
+        with time_limit(20):
+            tns = dendropy.TaxonNamespace(case["labels"])
+            apply_ns_ops(tns, case)
+            actual = [t.label for t in tns]
+            if actual != order:
+                ctx.count("ns_sim_mismatch")
+                order = actual
+            text = tns.as_string(schema, **case.get("wopts", {}))
+    except Timeout:
+        ctx.fail("hang", "writing a namespace to %s did not finish" % schema, case)
+        return
+    except Exception as e:
+        ctx.fail("write-error", "writing a namespace to %s raised %s: %s" % (schema, type(e).__name__, str(e)[:200]), case)
+        return
+    got = None
+    try:
+        with time_limit(20):
+            kw = {}
+            if schema == "nexus" and case.get("wopts", {}).get("preserve_spaces") and case.get("wopts", {}).get("unquoted_underscores"):
+                kw["preserve_underscores"] = True
+            ds = dendropy.DataSet.get(data=text, schema=schema, **kw)
+            got = [[t.label for t in ns] for ns in ds.taxon_namespaces]
+    except Timeout:
+        ctx.fail("hang", "re-reading the %s namespace text did not finish" % schema, case)
+    except Exception as e:
+        ctx.fail("read-error", "re-reading the written %s namespace text raised %s: %s | text: %r" % (
+            schema, type(e).__name__, str(e)[:160], text[-300:]), case)
+    if got is not None and got != [order]:
+        ctx.fail("namespace", "%s: namespace %r (member order at writing) written on its own is read back as %r" % (schema, order, got), case)
+    if schema == "nexus":
+        ro = {"preserve_underscores": True} if (case.get("wopts", {}).get("preserve_spaces") and case.get("wopts", {}).get("unquoted_underscores")) else {}
+        pending.append(("nexus-doc %s %s * %s" % (ropts_bits(ro), case_map(text, *order), hex6(text)), ("nexus-doc", case, False),
+                        "ERR" if got is None else [got[0] if got else [], []]))
+
+
+def gen_taxa_only(rng):
+    labels = gen_labels(rng, rng.randint(1, 6))
+    case = {"op": "taxa-only", "schema": rng.choice(["nexus", "nexml"]), "labels": labels, "wopts": {}, "ropts": {}, "trees": []}
+    if rng.random() < 0.7:
+        case["ns_ops"] = gen_ns_ops(rng, labels)
+    if case["schema"] == "nexus" and rng.random() < 0.25:
+        case["wopts"] = {"preserve_spaces": True, "unquoted_underscores": True}
+    return case
 
 
 def _tok_texts(m):
@@ -636,15 +914,23 @@ def flush(ctx, pending):
         if m is None:
             continue
         m = m.strip()
-        if op in ("write-stmt", "taxlabels", "nexus-text"):
+        if op in ("write-stmt", "taxlabels", "nexus-text", "nexus-doc-text"):
             stage2.append((op, case, extra, impl, "<bad-op>" if m == "bad-op" else (unhex6(m) or "")))
             continue
         ctx.compared()
+        ctx.count("model-op:" + op)
         if op == "token-texts":
             if _tok_texts(m) != impl or not m.endswith(("EOF0", "EOF1")):
                 ctx.disagree(op, case, " ".join(impl), m)
-        elif op in ("parse", "parse-nexus", "parse-text", "rt", "nexus"):
-            got = canon_model(m, extra, named=(op == "nexus"))
+        elif op == "nexml-write":
+            try:
+                got = nexml_doc_tokens(nexml_doc_of_model(m))
+            except (ValueError, IndexError, AssertionError):
+                got = m
+            if got != impl:
+                ctx.disagree(op, case, impl[:400], got[:400])
+        elif op in ("parse", "parse-nexus", "parse-text", "rt", "nexus", "nexus-doc", "nexml-read", "nexml-rt"):
+            got = canon_model(m, extra, named=(op in ("nexus", "nexus-doc", "nexml-read", "nexml-rt")))
             if got != impl:
                 ctx.disagree(op, case, json.dumps(impl)[:400], json.dumps(got)[:400] + " <- " + m[:200])
         else:
@@ -662,6 +948,7 @@ def flush(ctx, pending):
             if a is None or b is None:
                 continue
             ctx.compared()
+            ctx.count("model-op:" + op)
             if _tok_norm(a.strip()) != _tok_norm(b.strip()):
                 ctx.disagree(op, case, impl_text, model_text)
 
@@ -813,7 +1100,7 @@ def run(ctx):
             flush(ctx, pending)
     # fixed corner cases first
     for case in corner_cases():
-        run_roundtrip(ctx, dendropy, case, pending)
+        (run_taxa_only if case.get("op") == "taxa-only" else run_roundtrip)(ctx, dendropy, case, pending)
     flush(ctx, pending)
     # label level
     for _ in range(ctx.pick(500, 6000)):
@@ -839,6 +1126,8 @@ def run(ctx):
     while spent() < t_end and n < ctx.pick(25000, 400000):
         case = gen_case(rng, max_leaves=max_leaves if rng.random() < 0.8 else 3)
         run_roundtrip(ctx, dendropy, case, pending)
+        if n % 12 == 0:
+            run_taxa_only(ctx, dendropy, gen_taxa_only(rng), pending)
         n += 1
         maybe_flush()
     flush(ctx, pending)
@@ -889,6 +1178,21 @@ def corner_cases():
         out.append(simple_case(schema, ["A", "B"], rooted=None))
         out.append(simple_case(schema, ["(", ")", ",", ":", ";", "'", "[", "]", "=", "\\", "\""]))
         out.append(simple_case(schema, ["x<y", "a&b", "q\"r", "t\tu", u"é", "p>q"]))
+        # namespaces whose member order differs from the accession order (one unused member `d`, digit-only labels too)
+        for ops in ([["sort"]], [["rsort"]], [["reverse"]], [["readd", "b"]], [["readd", "d"], ["reverse"]], [["sort"], ["readd", "a"]]):
+            for into in ("fresh", "source"):
+                for extra in ({}, {"translate_tree_taxa": True}, {"suppress_taxa_blocks": True},
+                              {"suppress_taxa_blocks": True, "translate_tree_taxa": True}) if schema == "nexus" else ({},):
+                    for labs in (["b", "c", "a", "d"], ["2", "10", "1", "d"]):
+                        if extra.get("suppress_taxa_blocks") and into == "fresh" and labs[0].isdigit():
+                            continue      # digit-only labels need a namespace to be read into when no TAXA block is written
+                        c = simple_case(schema, labs, spec=[None, None, None, [[l, None, 1.5, []] for l in labs[:3]]], wopts=dict(extra))
+                        c["ns_ops"] = ops
+                        c["into"] = into
+                        out.append(c)
+    for schema in ("nexus", "nexml"):
+        for ops in ([], [["sort"]], [["rsort"]], [["reverse"]], [["readd", "b"]], [["readd", "b"], ["sort"]]):
+            out.append({"op": "taxa-only", "schema": schema, "labels": ["b", "c d", "a_1", "2"], "ns_ops": ops, "wopts": {}, "ropts": {}, "trees": []})
     return out
 
 
@@ -949,8 +1253,29 @@ def exhaustive(ctx, dendropy, pending):
                     count += 1
             if len(pending) > 1500:
                 flush(ctx, pending)
+    # every sequence of <= 2 namespace-order operations over a 4-member namespace (one member on no node), each schema, TRANSLATE on / off
+    labs = ["b", "10", "a", "2"]
+    single_ops = [["sort"], ["rsort"], ["reverse"]] + [["readd", l] for l in labs]
+    seqs = [[o] for o in single_ops] + [[o1, o2] for o1 in single_ops for o2 in single_ops]
+    for ops in seqs:
+        for schema in SCHEMAS:
+            for extra in (({}, {"translate_tree_taxa": True}) if schema == "nexus" else ({},)):
+                for into in ("fresh", "source"):
+                    c = simple_case(schema, labs, spec=[None, None, None, [[l, None, 1.5, []] for l in labs[:3]]], wopts=dict(extra),
+                                    rooted=rng.choice([True, False]))
+                    c["ns_ops"] = ops
+                    c["into"] = into
+                    run_roundtrip(ctx, dendropy, c, pending)
+                    count += 1
+        for schema in ("nexus", "nexml"):
+            run_taxa_only(ctx, dendropy, {"op": "taxa-only", "schema": schema, "labels": labs, "ns_ops": ops, "wopts": {}, "ropts": {}, "trees": []},
+                          pending)
+        if len(pending) > 1500:
+            flush(ctx, pending)
     ctx.extra["exhaustive_small_scope"] = ("%d enumerated round trips: every label-domain character (%d) alone/first/middle/last x 3 schemas, "
-                                           "all ordered pairs of %d special characters, all shapes <= 4 leaves x every anonymous-leaf subset x 3 schemas"
+                                           "all ordered pairs of %d special characters, all shapes <= 4 leaves x every anonymous-leaf subset x 3 schemas, "
+                                           "every sequence of <= 2 namespace-order operations (sort, reverse-sort, reverse, remove+add of each member) on a "
+                                           "4-member namespace x 3 schemas x TRANSLATE on/off x fresh/source namespace"
                                            % (count, len(PRINTABLE), len(TABLE_CHARS)))
 
 
@@ -961,6 +1286,8 @@ def replay(ctx, rec):
     op = c.get("op")
     if op == "roundtrip":
         run_roundtrip(ctx, dendropy, c, pending)
+    elif op == "taxa-only":
+        run_taxa_only(ctx, dendropy, c, pending)
     elif op == "label":
         run_label(ctx, dendropy, c["label"], c["ps"], c["uu"], c["pu"], pending, follow=c.get("follow", ":"))
     elif op == "tokens":
